@@ -139,7 +139,10 @@ class Harness:
                         entered[0] = True
                         H.log.append(f"q:{d}:{H.oid(b)}")
                         got.append(b)
-                    m = cx.enter_context(cls(*got))
+                    # every other class hands out an instance of a class DERIVED at run time (as tbot's default
+                    # build-host role does with its proxy class): the context files it under the registered class
+                    made = type(f"{cls.__name__}Proxy", (cls,), {}) if c % 2 == 1 else cls
+                    m = cx.enter_context(made(*got))
                     yield m
 
             @contextlib.contextmanager
